@@ -11,6 +11,17 @@ symbol table>) uses in functions that do not (re)write the a<i> keys of the shar
 Source shapes read as the same thing (each keeps the Python meaning; the list is part of the trusted translator):
   * file names: `%` formatting, f-strings, concatenation with str(), "...{}".format(...), os.path.join(d, name) (only the last
     path component names the file), a name hoisted into a local (`path = ...; open(path)`), a module-level constant;
+  * file names, continued: a name handed back by a called function of the stage whose body is straight-line `name = <expr>` statements
+    and one final `return <string-building expr>` (`open(_previous_eqns_file(likelihood, comp))`, also hoisted: `p = _name_of(d, n)`) --
+    the arguments are substituted for the parameters; `sep.join(L)` for a list L of names (a display, a hoisted local, or
+    `[<string-building expr> for v in <literal/hoisted list>]` with one generator and no condition); a piece chosen by a conditional
+    of strings, in place or hoisted (`prefix = "unique" if unique else "all"`): the operation is listed once per possible name, first
+    arm first -- for a READ/APPEND that is every file it may touch; an open that TRUNCATES one of several names is listed `conditional`
+    with alternative `r` for each (none of them is known to be fresh afterwards); np.savetxt/os.remove/rename/copy target or a shell
+    command chosen that way: fail closed.  When the test of the conditional is a parameter that THIS call binds to the constant
+    True/False (as an argument or through its constant default, parameter never re-bound) only that arm is listed;
+  * a parameter a call leaves to its constant default (True/False/a string, never re-bound in the callee) has that value in the callee;
+    lists of names and conditional names are handed on to callees as they are;
   * loops over a literal list OR tuple of names (also hoisted into a local or a module-level constant) are unrolled, so they
     equal the duplicated statements; `with open(p, 'w'): pass` = `open(p, 'w').close()` (any open call counts);
   * open mode given positionally, as `mode=`, or through a local bound to a literal; 'b'/'t' dropped;
@@ -46,14 +57,155 @@ READERS = {"np.loadtxt", "np.genfromtxt", "numpy.loadtxt"}
 WRITERS = {"np.savetxt", "numpy.savetxt"}
 
 
+class Alts(tuple):
+    """the values a name bound to `X if c else Y` (string-valued arms) can take, first arm first"""
+
+
+_CHOICE = "<choice>"            # env key: {id(IfExp node) | name bound to Alts: index of the arm taken} (see _fmt_all)
+_CUR = dict(funcs=None)         # the functions of the stage being analysed (for path-helper calls in _fmt)
+
+
+def _stringy(e):
+    """the expression builds a string from at least one string literal (%, +, f-string, .format, join, conditional of those)"""
+    if isinstance(e, ast.Constant):
+        return isinstance(e.value, str)
+    if isinstance(e, ast.JoinedStr):
+        return True
+    if isinstance(e, ast.BinOp) and isinstance(e.op, (ast.Add, ast.Mod)):
+        return _stringy(e.left) or (isinstance(e.op, ast.Add) and _stringy(e.right))
+    if isinstance(e, ast.IfExp):
+        return _stringy(e.body) and _stringy(e.orelse)
+    if isinstance(e, ast.Call) and isinstance(e.func, ast.Attribute) and e.func.attr in ("format", "join") and isinstance(e.func.value, ast.Constant) \
+            and isinstance(e.func.value.value, str):
+        return True
+    if isinstance(e, ast.Call) and ast.unparse(e.func) in ("os.path.join", "path.join"):
+        return True
+    return False
+
+
+def _fmt_list(e, env):
+    """the strings of a list-valued expression, in order, or None: a display of string-building expressions, a name bound to such a
+    list (literal or hoisted), `[<string-building expr> for v in <such a list>]` (one generator, no condition), tuple()/list() of one"""
+    if isinstance(e, ast.Name):
+        v = env.get(e.id)
+        return list(v) if isinstance(v, list) else None
+    if isinstance(e, (ast.List, ast.Tuple)):
+        if not e.elts or not all(_stringy(x) or (isinstance(x, ast.Name) and isinstance(env.get(x.id), str)) for x in e.elts):
+            return None
+        return [_fmt(x, env) for x in e.elts]
+    if isinstance(e, (ast.ListComp, ast.GeneratorExp)) and len(e.generators) == 1:
+        g = e.generators[0]
+        src = _fmt_list(g.iter, env)
+        if src is None or g.ifs or g.is_async or not isinstance(g.target, ast.Name) or not _stringy(e.elt):
+            return None
+        out = []
+        for x in src:
+            e2 = dict(env); e2[g.target.id] = x
+            out.append(_fmt(e.elt, e2))
+        return out
+    if isinstance(e, ast.Call) and isinstance(e.func, ast.Name) and e.func.id in ("list", "tuple") and len(e.args) == 1 and not e.keywords:
+        return _fmt_list(e.args[0], env)
+    return None
+
+
+def _helper_value(c, env, depth=0):
+    """`h(args)` for a function of the stage whose body is straight-line `name = <expr>` statements and one final `return <expr>`
+    (no other statement): the symbolic value of the returned string, else None.  (The EFFECTS of the call are collected where every
+    call is, by handle_call; this only reads what name the helper hands back.)"""
+    funcs = _CUR["funcs"] or {}
+    f = c.func
+    nm = f.id if isinstance(f, ast.Name) else (f.attr if isinstance(f, ast.Attribute) and isinstance(f.value, ast.Name) else None)
+    h = funcs.get(nm)
+    if h is None or depth > 2 or h.decorator_list or h.args.vararg or h.args.kwarg:
+        return None
+    order = norm._bind(h, c)
+    if order is None:
+        return None
+    body = norm._strip_doc(h.body)
+    if not body or not isinstance(body[-1], ast.Return) or body[-1].value is None:
+        return None
+    e2 = dict(getattr(h, "_consts", {}))
+    e2["<depth>"] = depth + 1
+    if _CHOICE in env:
+        e2[_CHOICE] = env[_CHOICE]
+    for p, v, isdef in order:
+        e2[p] = _fmt(v, {} if isdef else env)
+    for st in body[:-1]:
+        if not (isinstance(st, ast.Assign) and len(st.targets) == 1 and isinstance(st.targets[0], ast.Name)):
+            return None
+        lst = _fmt_list(st.value, e2)
+        e2[st.targets[0].id] = lst if lst is not None else _fmt(st.value, e2)
+    r = body[-1].value
+    if not (_stringy(r) or isinstance(r, ast.Name)):
+        return None
+    return _fmt(r, e2)
+
+
+def _static_test(t, env):
+    """True / False when the test is a parameter that this call binds to the constant True / False (also `not p`), else None"""
+    if isinstance(t, ast.Name) and type(env.get(t.id)) is bool:
+        return env[t.id]
+    if isinstance(t, ast.UnaryOp) and isinstance(t.op, ast.Not):
+        v = _static_test(t.operand, env)
+        return None if v is None else (not v)
+    return None
+
+
+def _fmt_all(e, env):
+    """every string the expression can evaluate to, over the arms of the conditional expressions in it and the values of the names
+    bound to a conditional of strings (`Alts`), first arms first; duplicates dropped"""
+    points = []
+    for n in ast.walk(e):
+        if isinstance(n, ast.IfExp):
+            if _static_test(n.test, env) is None:
+                points.append((id(n), 2))
+        elif isinstance(n, ast.Name) and isinstance(env.get(n.id), Alts) and (n.id, len(env[n.id])) not in points:
+            points.append((n.id, len(env[n.id])))
+    if not points:
+        return [_fmt(e, env)]
+    if len(points) > 4:
+        raise ExtractError("file name %s depends on more than four run-time choices" % ast.unparse(e)[:40])
+    out = []
+    import itertools
+    for pick in itertools.product(*[range(k) for _, k in points]):
+        e2 = dict(env)
+        e2[_CHOICE] = dict(env.get(_CHOICE, {}))
+        e2[_CHOICE].update({p[0]: i for p, i in zip(points, pick)})
+        s = _fmt(e, e2)
+        if s not in out:
+            out.append(s)
+    return out
+
+
 def _fmt(e, env):
     """symbolic rendering of a str-valued expression; unknown values become {name}"""
     if isinstance(e, ast.Constant):
         return str(e.value)
     if isinstance(e, ast.Name):
         if e.id in env:
-            return env[e.id] if isinstance(env[e.id], str) else _fmt(env[e.id], env)
+            v = env[e.id]
+            if isinstance(v, Alts):
+                k = env.get(_CHOICE, {}).get(e.id)
+                return v[k] if k is not None else "{%s}" % e.id
+            if isinstance(v, list):
+                return "{%s}" % e.id
+            if type(v) is bool:
+                return str(v)
+            return v if isinstance(v, str) else _fmt(v, env)
         return "{%s}" % e.id
+    if isinstance(e, ast.IfExp) and _static_test(e.test, env) is not None:
+        return _fmt(e.body if _static_test(e.test, env) else e.orelse, env)
+    if isinstance(e, ast.IfExp) and id(e) in env.get(_CHOICE, {}):
+        return _fmt(e.orelse if env[_CHOICE][id(e)] else e.body, env)
+    if isinstance(e, ast.Call) and isinstance(e.func, ast.Attribute) and e.func.attr == "join" and isinstance(e.func.value, ast.Constant) \
+            and isinstance(e.func.value.value, str) and len(e.args) == 1 and not e.keywords:
+        parts = _fmt_list(e.args[0], env)
+        if parts is not None:
+            return e.func.value.value.join(parts)
+    if isinstance(e, ast.Call) and not (isinstance(e.func, ast.Name) and e.func.id == "str"):
+        hv = _helper_value(e, env, env.get("<depth>", 0))
+        if hv is not None:
+            return hv
     if isinstance(e, ast.BinOp) and isinstance(e.op, ast.Add):
         return _fmt(e.left, env) + _fmt(e.right, env)
     if isinstance(e, ast.BinOp) and isinstance(e.op, ast.Mod):
@@ -483,6 +635,7 @@ def analyse(stage, files=None, entry_file=None, structured=False):
         for n in _module(stage, rel).body:
             if isinstance(n, ast.FunctionDef):
                 funcs[n.name] = n
+    _CUR["funcs"] = funcs
     effs = []
     effx = []                   # parallel to effs: condition / alternative mode / loop block of each effect
     loops = []                  # enclosing loop blocks, outermost first (across inlined calls)
@@ -509,6 +662,30 @@ def analyse(stage, files=None, entry_file=None, structured=False):
         nm = f.id if isinstance(f, ast.Name) else (f.attr if isinstance(f, ast.Attribute) else None)
         return nm if nm in funcs else None
 
+    def keys(e, env, fname, lineno, single=False):
+        """the file-name patterns the path expression can stand for (more than one: a name chosen at run time by a conditional of strings).
+        `single`: the operation truncates/removes -- with a run-time choice of the name no single file is known to be fresh after it: fail closed"""
+        ks = []
+        for s in _fmt_all(e, env):
+            k = _key(s)
+            if k not in ks:
+                ks.append(k)
+        if single and len(ks) > 1:
+            raise ExtractError("the file written/removed at %s:%d is chosen at run time (%s): not modelled" % (fname, lineno, ast.unparse(e)[:40]))
+        return ks
+
+    def argval(a, env):
+        """what a parameter of a called function stands for: the caller's list / alternatives handed on, else the symbolic string"""
+        if isinstance(a, ast.Name) and (isinstance(env.get(a.id), (list, Alts)) or type(env.get(a.id)) is bool):
+            return env[a.id]
+        if isinstance(a, ast.Constant) and type(a.value) is bool:
+            return a.value
+        lst = _fmt_list(a, env)
+        if lst is not None:
+            return lst
+        vs = _fmt_all(a, env)
+        return vs[0] if len(vs) == 1 else Alts(vs)
+
     def walk_fn(name, env, depth, stack):
         fn = funcs[name]
         visited.add(name)
@@ -522,24 +699,33 @@ def analyse(stage, files=None, entry_file=None, structured=False):
         if full == "open" and c.args:
             inner = loops[-1] if loops and loops[-1]["fn"] == fname and loops[-1]["level"] == len(stack) else None
             acc, cond, alt = _open_mode(c, env, fname, funcs.get(fname), inner)
-            add(fname, c.lineno, _key(_fmt(c.args[0], env)), acc, cond, alt)
+            ks = keys(c.args[0], env, fname, c.lineno)
+            if len(ks) > 1 and acc in ("w", "rm") and cond == "always":
+                # which of the names is truncated is decided at run time: each of them only MAY be
+                acc, cond, alt = acc, "conditional", "r"
+            for k in ks:
+                add(fname, c.lineno, k, acc, cond, alt)
         elif full in READERS and c.args:
-            effs.append((fname, c.lineno, _key(_fmt(c.args[0], env)), "r"))
+            effs.extend([(fname, c.lineno, k, "r") for k in keys(c.args[0], env, fname, c.lineno)])
         elif full in WRITERS and c.args:
-            effs.append((fname, c.lineno, _key(_fmt(c.args[0], env)), "w"))
+            effs.extend([(fname, c.lineno, k, "w") for k in keys(c.args[0], env, fname, c.lineno, single=True)])
         elif full in ("os.remove", "os.unlink") and c.args:
-            effs.append((fname, c.lineno, _key(_fmt(c.args[0], env)), "rm"))
+            effs.extend([(fname, c.lineno, k, "rm") for k in keys(c.args[0], env, fname, c.lineno, single=True)])
         elif full in ("os.rename", "os.replace", "shutil.move") and len(c.args) == 2:
-            a_, b_ = _key(_fmt(c.args[0], env)), _key(_fmt(c.args[1], env))       # as the shell's mv
+            (a_,), (b_,) = keys(c.args[0], env, fname, c.lineno, single=True), keys(c.args[1], env, fname, c.lineno, single=True)       # as the shell's mv
             effs.extend([(fname, c.lineno, a_, "r"), (fname, c.lineno, b_, "w"), (fname, c.lineno, a_, "rm")])
         elif full in ("shutil.copy", "shutil.copyfile", "shutil.copy2") and len(c.args) == 2:
-            effs.extend([(fname, c.lineno, _key(_fmt(c.args[0], env)), "r"), (fname, c.lineno, _key(_fmt(c.args[1], env)), "w")])
+            (b_,) = keys(c.args[1], env, fname, c.lineno, single=True)
+            effs.extend([(fname, c.lineno, k, "r") for k in keys(c.args[0], env, fname, c.lineno)] + [(fname, c.lineno, b_, "w")])
         elif full.split(".")[0] in ("shutil", "tempfile", "pathlib") or full in ("Path", "os.truncate", "os.open", "os.removedirs", "os.rmdir", "io.open",
                                                                                  "np.save", "np.savez", "np.load", "np.fromfile", "numpy.save", "numpy.load") \
                 or (isinstance(c.func, ast.Attribute) and c.func.attr in ("write_text", "write_bytes", "read_text", "read_bytes", "tofile", "touch")):
             raise ExtractError("file operation %s at %s:%d not modelled" % (full[:40], fname, c.lineno))
         elif full == "os.system" and c.args:
-            for k, a in _shell(_fmt(c.args[0], env), fname, c.lineno):
+            cmds = _fmt_all(c.args[0], env)
+            if len(cmds) > 1:
+                raise ExtractError("shell command at %s:%d chosen at run time (%s): not modelled" % (fname, c.lineno, ast.unparse(c.args[0])[:40]))
+            for k, a in _shell(cmds[0], fname, c.lineno):
                 effs.append((fname, c.lineno, k, a))
         else:
             nm = callee(c)
@@ -547,10 +733,19 @@ def analyse(stage, files=None, entry_file=None, structured=False):
                 sub = {}
                 params = [a.arg for a in funcs[nm].args.args]
                 for p, a in zip(params, c.args):
-                    sub[p] = _fmt(a, env)
+                    sub[p] = argval(a, env)
                 for kw in c.keywords:
                     if kw.arg:
-                        sub[kw.arg] = _fmt(kw.value, env)
+                        sub[kw.arg] = argval(kw.value, env)
+                # a parameter the call leaves to its constant default (True/False/a string) has that value in this call
+                a_ = funcs[nm].args
+                pos_ = a_.posonlyargs + a_.args
+                given = len(c.args) >= len(pos_) or any(isinstance(x, ast.Starred) for x in c.args) or any(kw.arg is None for kw in c.keywords)
+                if not given:
+                    for p_, d_ in list(zip(pos_[len(pos_) - len(a_.defaults):], a_.defaults)) + [(p_, d_) for p_, d_ in zip(a_.kwonlyargs, a_.kw_defaults) if d_ is not None]:
+                        if p_.arg not in sub and isinstance(d_, ast.Constant) and (type(d_.value) is bool or isinstance(d_.value, str)) \
+                                and not norm._rebound_in(funcs[nm], p_.arg):
+                            sub[p_.arg] = d_.value
                 walk_fn(nm, sub, depth + 1, stack)
 
     def visit_expr(e, env, fname, depth, stack):
@@ -564,8 +759,7 @@ def analyse(stage, files=None, entry_file=None, structured=False):
                 try:
                     lit = ast.literal_eval(st.iter)
                 except Exception:
-                    if isinstance(st.iter, ast.Name) and isinstance(env.get(st.iter.id), list):
-                        lit = env[st.iter.id]
+                    lit = _fmt_list(st.iter, env)           # a hoisted list, a display / comprehension of string-building expressions
                 if isinstance(lit, tuple):
                     lit = list(lit)             # a literal tuple of names is unrolled like a literal list
                 if isinstance(lit, list) and lit and all(isinstance(x, str) for x in lit) and isinstance(st.target, ast.Name):
@@ -621,12 +815,28 @@ def analyse(stage, files=None, entry_file=None, structured=False):
                         elif isinstance(v, str):
                             env[st.targets[0].id] = v
                     except Exception:
-                        if isinstance(st.value, (ast.BinOp, ast.Constant, ast.JoinedStr)) or (isinstance(st.value, ast.Name) and st.value.id in env) \
+                        lst = _fmt_list(st.value, env) if not isinstance(st.value, ast.Name) else None
+                        if lst:
+                            env[st.targets[0].id] = lst             # `parts = ['%s/%s_..' % (d, k) for k in kinds]`
+                        elif isinstance(st.value, ast.IfExp) and _stringy(st.value):
+                            vs = _fmt_all(st.value, env)            # `prefix = "unique" if unique else "all"`
+                            env[st.targets[0].id] = vs[0] if len(vs) == 1 else Alts(vs)
+                        elif isinstance(st.value, ast.Name) and isinstance(env.get(st.value.id), (list, Alts)):
+                            env[st.targets[0].id] = env[st.value.id]
+                        elif isinstance(st.value, ast.Call) and _helper_value(st.value, env) is not None:
+                            env[st.targets[0].id] = _helper_value(st.value, env)     # `path = _name_of(dirname, compl)`
+                        elif isinstance(st.value, ast.Call) and isinstance(st.value.func, ast.Attribute) and st.value.func.attr == "join" \
+                                and isinstance(st.value.func.value, ast.Constant) and _fmt_list(st.value.args[0] if st.value.args else st.value, env) is not None:
+                            env[st.targets[0].id] = _fmt(st.value, env)
+                        elif isinstance(st.value, (ast.BinOp, ast.Constant, ast.JoinedStr)) or (isinstance(st.value, ast.Name) and st.value.id in env) \
                                 or (isinstance(st.value, ast.Call) and (ast.unparse(st.value.func) in ("os.path.join", "path.join") or (
                                     isinstance(st.value.func, ast.Attribute) and st.value.func.attr == "format" and isinstance(st.value.func.value, ast.Constant)))):
                             # a hoisted file name: `path = dirname + ...`, `path = os.path.join(...)`, `path = "...{}".format(...)`
-                            s = env[st.value.id] if isinstance(st.value, ast.Name) else _fmt(st.value, env)
-                            env[st.targets[0].id] = s
+                            if isinstance(st.value, ast.Name):
+                                env[st.targets[0].id] = env[st.value.id]
+                            else:
+                                vs = _fmt_all(st.value, env)            # more than one: built from a name bound to a conditional of strings
+                                env[st.targets[0].id] = vs[0] if len(vs) == 1 else Alts(vs)
                 visit_expr(st, env, fname, depth, stack)
 
     if "main" not in funcs:
